@@ -275,7 +275,10 @@ impl Compiler {
                         self.emit(Ins::Divert(d.clone()));
                     }
                     None => {
-                        self.emit(Ins::Eol);
+                        // a line that holds only tags has no line end of its own (T5)
+                        if !(parts.is_empty() && !tags.is_empty()) {
+                            self.emit(Ins::Eol);
+                        }
                     }
                 }
             }
@@ -302,8 +305,12 @@ impl Compiler {
             }
             Stmt::If { branches, else_ } => {
                 let mut end_jumps = vec![];
+                // L2b: the block form is made of lines: every branch starts on a new line and the
+                // closing brace ends one (these line ends are visible only where T2 keeps them:
+                // after a tag-only line, or after text that ran on through an inline divert)
                 for (c, b) in branches {
                     let j = self.emit(Ins::JumpIfFalse(c.clone(), 0));
+                    self.emit(Ins::Eol);
                     for s in b {
                         self.stmt(s);
                     }
@@ -312,6 +319,7 @@ impl Compiler {
                     self.ins[j] = Ins::JumpIfFalse(c.clone(), next);
                 }
                 if let Some(e) = else_ {
+                    self.emit(Ins::Eol);
                     for s in e {
                         self.stmt(s);
                     }
@@ -320,6 +328,7 @@ impl Compiler {
                 for j in end_jumps {
                     self.ins[j] = Ins::Jump(end);
                 }
+                self.emit(Ins::Eol);
             }
             Stmt::Weave(w) => {
                 // choice points in sequence, then the end of this container's content
@@ -978,6 +987,7 @@ impl<'a> Vm<'a> {
     fn cut_lines(&self, s: &State) -> TurnOut {
         // apply the glue / line-end rules while appending
         let mut items: Vec<Item> = vec![];
+        let mut no_rule: Option<String> = None;
         let has_text = |items: &[Item]| items.iter().any(|i| matches!(i, Item::Text(t) if !t.trim().is_empty()));
         for it in &s.out {
             match it {
@@ -1044,7 +1054,16 @@ impl<'a> Vm<'a> {
                     }
                     items.push(Item::Text(t.clone()));
                 }
-                Item::Tag(t) => items.push(Item::Tag(t.clone())),
+                Item::Tag(t) => {
+                    // a tag while glue is still waiting for text: the reference runtime then never
+                    // lets go of the glue (every later line end of the turn is swallowed) and the
+                    // documentation says nothing: no rule, no verdict
+                    let glue_pending = items.iter().rev().take_while(|x| !matches!(x, Item::Text(t) if !t.trim().is_empty())).any(|x| matches!(x, Item::Glue));
+                    if glue_pending {
+                        no_rule = Some("a tag directly after glue".to_string());
+                    }
+                    items.push(Item::Tag(t.clone()))
+                }
                 Item::Mark(n) => items.push(Item::Mark(*n)),
             }
         }
@@ -1081,7 +1100,7 @@ impl<'a> Vm<'a> {
             lines,
             choices: s.pending.iter().filter(|p| p.visible).map(|p| p.text.clone()).collect(),
             ended: s.ended || s.pending.iter().all(|p| !p.visible),
-            error: s.error.clone(),
+            error: s.error.clone().or(no_rule),
             ext_calls,
         }
     }
